@@ -58,20 +58,19 @@ static void do_logw(uint64_t len0, char *recs, ldb_buffer_t *dst) {
   }
 }
 
-static void handle(char *line) {
-  char *f[MAXF]; int nf = split_fields(line, f, MAXF);
+static int handle_core(char **f, int nf) {
   if (nf == 2 && (!strcmp(f[0], "v32enc") || !strcmp(f[0], "v64enc"))) {
     uint8_t buf[16]; uint8_t *e; unsigned long long v = strtoull(f[1], NULL, 10);
     if (f[0][1] == '3') e = ldb_varint32_write(buf, (uint32_t)v); else e = ldb_varint64_write(buf, v);
     print_hex(stdout, buf, e - buf);
   } else if (nf == 2 && !strcmp(f[0], "v32dec")) {
     const uint8_t *xp; size_t xn; uint32_t z;
-    if (!parse_bytes(f[1], &g_a)) { printf("bad-op"); return; }
+    if (!parse_bytes(f[1], &g_a)) { printf("bad-op"); return 1; }
     xp = g_a.p; xn = g_a.n;
     if (ldb_varint32_read(&z, &xp, &xn)) printf("ok %lu %lu", (unsigned long)z, (unsigned long)xn); else printf("fail");
   } else if (nf == 2 && !strcmp(f[0], "v64dec")) {
     const uint8_t *xp; size_t xn; uint64_t z;
-    if (!parse_bytes(f[1], &g_a)) { printf("bad-op"); return; }
+    if (!parse_bytes(f[1], &g_a)) { printf("bad-op"); return 1; }
     xp = g_a.p; xn = g_a.n;
     if (ldb_varint64_read(&z, &xp, &xn)) printf("ok %llu %lu", (unsigned long long)z, (unsigned long)xn); else printf("fail");
   } else if (nf == 2 && !strcmp(f[0], "f32")) {
@@ -82,14 +81,14 @@ static void handle(char *line) {
     ldb_fixed64_write(buf, v); print_hex(stdout, buf, 8); printf(" %llu", (unsigned long long)ldb_fixed64_decode(buf));
   } else if (nf == 2 && !strcmp(f[0], "slice")) {
     ldb_slice_t in, z;
-    if (!parse_bytes(f[1], &g_a)) { printf("bad-op"); return; }
+    if (!parse_bytes(f[1], &g_a)) { printf("bad-op"); return 1; }
     in.data = g_a.p; in.size = g_a.n;
     if (ldb_slice_slurp(&z, &in)) { printf("ok "); show_bytes(stdout, z.data, z.size); printf(" %lu", (unsigned long)in.size); }
     else printf("fail");
   } else if (nf == 3 && !strcmp(f[0], "crc")) {
     /* all three implementations and several alignments must agree; print the common value */
     uint32_t z = (uint32_t)strtoull(f[1], NULL, 10), r0, r; int al, bad = 0;
-    if (!parse_bytes(f[2], &g_a)) { printf("bad-op"); return; }
+    if (!parse_bytes(f[2], &g_a)) { printf("bad-op"); return 1; }
     r0 = crc32c_generic(z, g_a.p ? g_a.p : (const uint8_t *)"", g_a.n);
     for (al = 0; al < 8 && !bad; al++) {
       g_b.n = 0; vb_reserve(&g_b, g_a.n + 16);
@@ -111,7 +110,7 @@ static void handle(char *line) {
     show_bytes(stdout, dst.data, dst.size);
     ldb_buffer_clear(&dst);
   } else if (nf == 3 && !strcmp(f[0], "logr")) {
-    if (!parse_bytes(f[2], &g_a)) { printf("bad-op"); return; }
+    if (!parse_bytes(f[2], &g_a)) { printf("bad-op"); return 1; }
     do_logr(atoi(f[1]), g_a.p, g_a.n);
   } else if (nf == 4 && !strcmp(f[0], "logwr")) {
     ldb_buffer_t dst; static char *mf[MAXL]; int nm, i; size_t j;
@@ -120,21 +119,31 @@ static void handle(char *line) {
     nm = split_on(f[3], ',', mf, MAXL);
     for (i = 0; i < nm; i++) {
       unsigned long long a = 0, b = 0; char k = mf[i][0];
-      if (k == 't') { if (sscanf(mf[i], "t:%llu", &a) != 1) { printf("bad-op"); return; } if (a < dst.size) dst.size = a; }
+      if (k == 't') { if (sscanf(mf[i], "t:%llu", &a) != 1) { printf("bad-op"); return 1; } if (a < dst.size) dst.size = a; }
       else {
-        if (sscanf(mf[i] + 1, ":%llu:%llu", &a, &b) != 2) { printf("bad-op"); return; }
+        if (sscanf(mf[i] + 1, ":%llu:%llu", &a, &b) != 2) { printf("bad-op"); return 1; }
         if (k == 's') { if (a < dst.size) dst.data[a] = (uint8_t)b; }
         else if (k == 'x') { if (a < dst.size) dst.data[a] ^= (uint8_t)b; }
         else if (k == 'z') { for (j = a; j < a + b && j < dst.size; j++) dst.data[j] = 0; }
-        else { printf("bad-op"); return; }
+        else { printf("bad-op"); return 1; }
       }
     }
     printf("%lu ", (unsigned long)dst.size);
     do_logr(atoi(f[1]), dst.data, dst.size);
     ldb_buffer_clear(&dst);
   } else {
-    printf("bad-op");
+    return 0;
   }
+  return 1;
+}
+
+#include "u_formats.h"
+
+static void handle(char *line) {
+  static char *f[MAXF]; int nf = split_fields(line, f, MAXF);
+  if (handle_core(f, nf)) return;
+  if (handle_formats(f, nf)) return;
+  printf("bad-op");
 }
 
 int main(void) {
